@@ -398,6 +398,8 @@ int main(int argc, char** argv)
   while ((len = getline(&line, &cap, stdin)) >= 0)
   {
     ++seq;
+    /* marker on stderr: lets the orchestrator attribute the library's error messages ("Time limit exceeded in file:line") to ops */
+    fprintf(stderr, "@@%ld\n", seq);
     int rc = process_line(&cmr, line, &res, &o, &toks, &tokcap);
     if (rc) return rc;
     printf("#%ld %s\n", seq, res.s ? res.s : "");
